@@ -54,6 +54,10 @@ package tree
 //@   && (forall a K, b K {t.compare(a, b)} :: (t.compare(a, b) < 0 <==> t.compare(b, a) > 0) && (t.compare(a, b) == 0 <==> t.compare(b, a) == 0))
 //@   && (forall a K, b K, c K {t.compare(a, b), t.compare(b, c)} :: (t.compare(a, b) <= 0 && t.compare(b, c) <= 0 ==> t.compare(a, c) <= 0)
 //@        && (t.compare(a, b) < 0 && t.compare(b, c) <= 0 ==> t.compare(a, c) < 0) && (t.compare(a, b) <= 0 && t.compare(b, c) < 0 ==> t.compare(a, c) < 0))
+// the same for a `less` function: irreflexive, transitive, incomparability transitive
+//@ pred lessSWO(less) = (forall a K {less(a, a)} :: !less(a, a))
+//@   && (forall a K, b K, c K {less(a, b), less(b, c)} :: less(a, b) && less(b, c) ==> less(a, c))
+//@   && (forall a K, b K, c K {less(a, b), less(b, c)} {less(b, a), less(c, b)} :: !less(a, b) && !less(b, a) && !less(b, c) && !less(c, b) ==> !less(a, c) && !less(c, a))
 //@ pred ordOK(t) = ordG(t, nil, zero(K))
 // ordG: the invariant with clause 4 (a key strictly between two separators lives in the child between them) suspended
 // for key ek at node ex (the state between taking the predecessor out of a leaf and putting it into the vacated slot)
@@ -70,6 +74,15 @@ package tree
 //@ pred pathFits(t, c, k) = (c.pidx < c.parent.n ==> t.compare(k, c.parent.keys[c.pidx]) < 0) && (c.pidx > 0 ==> t.compare(c.parent.keys[c.pidx-1], k) < 0)
 //@ pred mapOK(t) = structOK(t, nil, nil) && swo(t) && ordOK(t)
 // the abstract map: domain t.root.sub, values t.val
+
+// ---- the ideal-map transitions (C01): domain t.root.sub, values t.val, Len t.size ----
+//@ pred sameDom(t) = forall kk K {t.root.sub[kk]} {old(t.root.sub)[kk]} :: t.root.sub[kk] <==> old(t.root.sub)[kk]
+//@ pred noEquiv(t, k) = forall kk K {old(t.root.sub)[kk]} :: old(t.root.sub)[kk] ==> t.compare(k, kk) != 0
+//@ pred putFound(t, k, v, fkey) = old(t.root.sub)[fkey] && t.compare(k, fkey) == 0 && sameDom(t) && t.val == store(old(t.val), fkey, v) && t.size == old(t.size)
+//@ pred putNew(t, k, v) = noEquiv(t, k) && t.size == old(t.size) + 1 && (forall kk K {t.root.sub[kk]} :: t.root.sub[kk] <==> (old(t.root.sub)[kk] || kk == k)) && t.val[k] == v && (forall kk K {t.val[kk]} :: kk != k ==> t.val[kk] == old(t.val)[kk])
+//@ pred delFound(t, k, fkey) = old(t.root.sub)[fkey] && t.compare(k, fkey) == 0 && t.size == old(t.size) - 1 && (forall kk K {t.root.sub[kk]} {old(t.root.sub)[kk]} :: t.root.sub[kk] <==> (old(t.root.sub)[kk] && kk != fkey)) && (forall kk K {t.val[kk]} :: kk != fkey ==> t.val[kk] == old(t.val)[kk])
+//@ pred delNone(t, k) = noEquiv(t, k) && t.size == old(t.size) && t.val == old(t.val) && sameDom(t)
+//@ pred mOK(t) = t != nil && structOK(t, nil, nil) && swo(t) && ordOK(t)
 
 // ---- array primitives ----
 
@@ -113,6 +126,9 @@ package tree
 //@   requires x != nil && x.owner != nil && x.owner.nodes[x] && structOK(x.owner, nil, nil)
 //@   loop 0: invariant curr != nil && x.owner.nodes[curr] && curr.height <= x.height && (x != x.owner.root ==> curr != x.owner.root)
 //@   ensures result != nil && x.owner.nodes[result] && result.height == 0 && (x != x.owner.root ==> result != x.owner.root && result.n >= 7)
+//@   requires C01: swo(x.owner) && ordOK(x.owner)
+//@   loop 0: invariant C01: (forall kk K {curr.sub[kk]} :: curr.sub[kk] ==> x.sub[kk]) && (forall kk K, k2 K {x.sub[kk], curr.sub[k2]} :: x.sub[kk] && !curr.sub[kk] && curr.sub[k2] ==> x.owner.compare(k2, kk) < 0)
+//@   ensures C01: (forall kk K {result.sub[kk]} :: result.sub[kk] ==> x.sub[kk]) && (forall kk K, k2 K {x.sub[kk], result.sub[k2]} :: x.sub[kk] && !result.sub[kk] && result.sub[k2] ==> x.owner.compare(k2, kk) < 0)
 
 //@ func rightmostLeaf
 //@   props C01 C03
@@ -120,15 +136,20 @@ package tree
 //@   requires x != nil && x.owner != nil && x.owner.nodes[x] && structOK(x.owner, nil, nil)
 //@   loop 0: invariant curr != nil && x.owner.nodes[curr] && curr.height <= x.height && (x != x.owner.root ==> curr != x.owner.root)
 //@   ensures result != nil && x.owner.nodes[result] && result.height == 0 && (x != x.owner.root ==> result != x.owner.root && result.n >= 7)
+//@   requires C01: swo(x.owner) && ordOK(x.owner)
+//@   loop 0: invariant C01: (forall kk K {curr.sub[kk]} :: curr.sub[kk] ==> x.sub[kk]) && (forall kk K, k2 K {x.sub[kk], curr.sub[k2]} :: x.sub[kk] && !curr.sub[kk] && curr.sub[k2] ==> x.owner.compare(kk, k2) < 0)
+//@   ensures C01: (forall kk K {result.sub[kk]} :: result.sub[kk] ==> x.sub[kk]) && (forall kk K, k2 K {x.sub[kk], result.sub[k2]} :: x.sub[kk] && !result.sub[kk] && result.sub[k2] ==> x.owner.compare(kk, k2) < 0)
 
 //@ func newBtree
-//@   props C03
+//@   props C01 C03
 //@   requires compare != nil
 //@   ghost result.root.owner := result
 //@   ghost result.nodes := single(result.root)
 //@   ghost result.dead := lambda x *node[K, V] :: false
+//@   ghost result.root.sub := lambda kk K :: false
 //@   ghost result.root.height := 0
 //@   ensures fresh(result) && result.size == 0 && result.gen == 0 && result.compare == compare && structOK(result, nil, nil) && result.root.n == 0 && deadOK(result)
+//@   ensures C01: ordOK(result) && (forall kk K {result.root.sub[kk]} :: !result.root.sub[kk])
 
 // ---- read paths: structure only (no panic, one searchNode per level) ----
 
@@ -165,12 +186,18 @@ package tree
 //@   ensures C01: !result ==> (forall kk K {t.root.sub[kk]} :: t.root.sub[kk] ==> t.compare(k, kk) != 0)
 
 //@ func btree.First
-//@   props C03
+//@   props C01 C03
 //@   requires structOK(t, nil, nil)
+//@   requires C01: swo(t) && ordOK(t)
+//@   ensures C01: t.root.n == 0 ==> result0 == zero(K) && result1 == zero(V)
+//@   ensures C01: t.root.n > 0 ==> t.root.sub[result0] && result1 == t.val[result0] && (forall kk K {t.root.sub[kk]} :: t.root.sub[kk] ==> t.compare(result0, kk) <= 0)
 
 //@ func btree.Last
-//@   props C03
+//@   props C01 C03
 //@   requires structOK(t, nil, nil)
+//@   requires C01: swo(t) && ordOK(t)
+//@   ensures C01: t.root.n == 0 ==> result0 == zero(K) && result1 == zero(V)
+//@   ensures C01: t.root.n > 0 ==> t.root.sub[result0] && result1 == t.val[result0] && (forall kk K {t.root.sub[kk]} :: t.root.sub[kk] ==> t.compare(kk, result0) <= 0)
 
 // ---- mutations: the structural invariant is re-established (C03) ----
 
@@ -317,8 +344,8 @@ package tree
 //@   after call removeRightmost[0]: ghost t.locN := store(t.locN, callresult0, curr)
 //@   after call removeRightmost[0]: ghost t.locI := store(t.locI, callresult0, idx)
 //@   ensures C01: ordOK(t)
-//@   ensures C01: fnd ==> old(t.root.sub)[fkey] && t.compare(k, fkey) == 0 && t.size == old(t.size) - 1 && (forall kk K {t.root.sub[kk]} {old(t.root.sub)[kk]} :: t.root.sub[kk] <==> (old(t.root.sub)[kk] && kk != fkey)) && (forall kk K {t.val[kk]} :: kk != fkey ==> t.val[kk] == old(t.val)[kk])
-//@   ensures C01: !fnd ==> (forall kk K {old(t.root.sub)[kk]} :: old(t.root.sub)[kk] ==> t.compare(k, kk) != 0) && t.size == old(t.size) && t.val == old(t.val) && (forall kk K {t.root.sub[kk]} :: t.root.sub[kk] <==> old(t.root.sub)[kk])
+//@   ensures C01: fnd ==> delFound(t, k, fkey)
+//@   ensures C01: !fnd ==> delNone(t, k)
 
 // ---- amalgam1: a read-only view of a full node plus one extra key/value/child ----
 
@@ -433,9 +460,8 @@ package tree
 //@   after call insertIntoLeaf[0]: ghost t.locN := store(t.locN, k, curr)
 //@   ghost t.val := fnd ? store(t.val, fkey, v) : t.val
 //@   ensures C01: ordOK(t)
-//@   ensures C01: fnd ==> old(t.root.sub)[fkey] && t.compare(k, fkey) == 0 && t.root.sub == old(t.root.sub) && t.val == store(old(t.val), fkey, v) && t.size == old(t.size)
-//@   ensures C01: !fnd ==> (forall kk K {old(t.root.sub)[kk]} :: old(t.root.sub)[kk] ==> t.compare(k, kk) != 0) && t.size == old(t.size) + 1
-//@   ensures C01: !fnd ==> (forall kk K {t.root.sub[kk]} :: t.root.sub[kk] <==> (old(t.root.sub)[kk] || kk == k)) && t.val[k] == v && (forall kk K {t.val[kk]} :: kk != k ==> t.val[kk] == old(t.val)[kk])
+//@   ensures C01: fnd ==> putFound(t, k, v, fkey)
+//@   ensures C01: !fnd ==> putNew(t, k, v)
 
 // ---- cursors (C02): safety and lost-detection ----
 // The comparator is assumed reflexive (part of "strict weak order given as a three-way compare").
@@ -656,3 +682,134 @@ func verifClientIterateWhileMutating[K any, V any](c *cursor[K, V], k1 K, k2 K, 
 //@   ensures fresh(result)
 //@   ensures lower.type_ == 3 ==> dyntype(result) == typeof("tree.backwardIterator") && rangeIt(t, result.(*backwardIterator[K, V]))
 //@   ensures lower.type_ != 3 ==> dyntype(result) == typeof("iterator.whileIterator") && (let w = result.(*iterator.whileIterator[KVPair[K, V]]) in !w.done && dyntype(w.inner) == typeof("tree.backwardIterator") && rangeIt(t, w.inner.(*backwardIterator[K, V])))
+
+// ---- exported wrappers (C01): Map and Set delegate to the shared tree; the ideal map is (t.root.sub, t.val, t.size) ----
+
+//@ func Map.Len
+//@   props C01
+//@   requires m.t != nil
+//@   ensures result == m.t.size
+
+//@ func Map.Put
+//@   props C01
+//@   requires mOK(m.t)
+//@   modifies m.t.size, m.t.gen, m.t.root, m.t.nodes, m.t.dead, all(m.t.root.n), all(m.t.root.keys), all(m.t.root.values), all(m.t.root.children), all(m.t.root.parent), all(m.t.root.pidx), all(m.t.root.owner), all(m.t.root.height), m.t.val, m.t.locN, m.t.locI, all(m.t.root.sub)
+//@   ghostinit fnd := false
+//@   ghostinit fkey := k
+//@   after call Put[0]: ghost fnd := callghost_fnd
+//@   after call Put[0]: ghost fkey := callghost_fkey
+//@   ensures mOK(m.t)
+//@   ensures fnd ==> putFound(m.t, k, v, fkey)
+//@   ensures !fnd ==> putNew(m.t, k, v)
+
+//@ func Map.Delete
+//@   props C01
+//@   requires mOK(m.t)
+//@   modifies m.t.size, m.t.gen, m.t.root, m.t.nodes, m.t.dead, all(m.t.root.n), all(m.t.root.keys), all(m.t.root.values), all(m.t.root.children), all(m.t.root.parent), all(m.t.root.pidx), all(m.t.root.owner), all(m.t.root.height), m.t.val, m.t.locN, m.t.locI, all(m.t.root.sub)
+//@   ghostinit fnd := false
+//@   ghostinit fkey := k
+//@   after call Delete[0]: ghost fnd := callghost_fnd
+//@   after call Delete[0]: ghost fkey := callghost_fkey
+//@   ensures mOK(m.t)
+//@   ensures fnd ==> delFound(m.t, k, fkey)
+//@   ensures !fnd ==> delNone(m.t, k)
+
+//@ func Map.Contains
+//@   props C01
+//@   requires mOK(m.t)
+//@   ensures result ==> (exists kk K :: m.t.root.sub[kk] && m.t.compare(k, kk) == 0)
+//@   ensures !result ==> (forall kk K {m.t.root.sub[kk]} :: m.t.root.sub[kk] ==> m.t.compare(k, kk) != 0)
+
+//@ func Map.Get
+//@   props C01
+//@   requires mOK(m.t)
+//@   ensures forall kk K {m.t.root.sub[kk]} :: m.t.root.sub[kk] && m.t.compare(k, kk) == 0 ==> result == m.t.val[kk]
+//@   ensures (forall kk K {m.t.root.sub[kk]} :: m.t.root.sub[kk] ==> m.t.compare(k, kk) != 0) ==> result == zero(V)
+
+//@ func Map.First
+//@   props C01
+//@   requires mOK(m.t)
+//@   ensures m.t.root.n == 0 ==> result0 == zero(K) && result1 == zero(V)
+//@   ensures m.t.root.n > 0 ==> m.t.root.sub[result0] && result1 == m.t.val[result0] && (forall kk K {m.t.root.sub[kk]} :: m.t.root.sub[kk] ==> m.t.compare(result0, kk) <= 0)
+
+//@ func Map.Last
+//@   props C01
+//@   requires mOK(m.t)
+//@   ensures m.t.root.n == 0 ==> result0 == zero(K) && result1 == zero(V)
+//@   ensures m.t.root.n > 0 ==> m.t.root.sub[result0] && result1 == m.t.val[result0] && (forall kk K {m.t.root.sub[kk]} :: m.t.root.sub[kk] ==> m.t.compare(kk, result0) <= 0)
+
+//@ func NewMapCmp
+//@   props C01
+//@   requires compare != nil
+//@   requires forall a K {compare(a, a)} :: compare(a, a) == 0
+//@   requires forall a K, b K {compare(a, b)} :: (compare(a, b) < 0 <==> compare(b, a) > 0) && (compare(a, b) == 0 <==> compare(b, a) == 0)
+//@   requires forall a K, b K, c K {compare(a, b), compare(b, c)} :: (compare(a, b) <= 0 && compare(b, c) <= 0 ==> compare(a, c) <= 0) && (compare(a, b) < 0 && compare(b, c) <= 0 ==> compare(a, c) < 0) && (compare(a, b) <= 0 && compare(b, c) < 0 ==> compare(a, c) < 0)
+//@   ensures fresh(result.t) && mOK(result.t) && result.t.size == 0 && (forall kk K {result.t.root.sub[kk]} :: !result.t.root.sub[kk])
+
+//@ func NewMap
+//@   props C01
+//@   requires less != nil && lessSWO(less)
+//@   ensures fresh(result.t) && mOK(result.t) && result.t.size == 0 && (forall kk K {result.t.root.sub[kk]} :: !result.t.root.sub[kk])
+//@   ensures forall a K, b K {result.t.compare(a, b)} :: result.t.compare(a, b) == (less(a, b) ? -1 : (less(b, a) ? 1 : 0))
+
+//@ func Set.Len
+//@   props C01
+//@   requires s.t != nil
+//@   ensures result == s.t.size
+
+//@ func Set.Contains
+//@   props C01
+//@   requires mOK(s.t)
+//@   ensures result ==> (exists kk T :: s.t.root.sub[kk] && s.t.compare(item, kk) == 0)
+//@   ensures !result ==> (forall kk T {s.t.root.sub[kk]} :: s.t.root.sub[kk] ==> s.t.compare(item, kk) != 0)
+
+//@ func Set.First
+//@   props C01
+//@   requires mOK(s.t)
+//@   ensures s.t.root.n == 0 ==> result == zero(T)
+//@   ensures s.t.root.n > 0 ==> s.t.root.sub[result] && (forall kk T {s.t.root.sub[kk]} :: s.t.root.sub[kk] ==> s.t.compare(result, kk) <= 0)
+
+//@ func Set.Last
+//@   props C01
+//@   requires mOK(s.t)
+//@   ensures s.t.root.n == 0 ==> result == zero(T)
+//@   ensures s.t.root.n > 0 ==> s.t.root.sub[result] && (forall kk T {s.t.root.sub[kk]} :: s.t.root.sub[kk] ==> s.t.compare(kk, result) <= 0)
+
+//@ func Set.Add
+//@   props C01
+//@   requires mOK(s.t)
+//@   modifies s.t.size, s.t.gen, s.t.root, s.t.nodes, s.t.dead, all(s.t.root.n), all(s.t.root.keys), all(s.t.root.values), all(s.t.root.children), all(s.t.root.parent), all(s.t.root.pidx), all(s.t.root.owner), all(s.t.root.height), s.t.val, s.t.locN, s.t.locI, all(s.t.root.sub)
+//@   ghostinit fnd := false
+//@   ghostinit fkey := item
+//@   after call Put[0]: ghost fnd := callghost_fnd
+//@   after call Put[0]: ghost fkey := callghost_fkey
+//@   ensures mOK(s.t)
+//@   ensures fnd ==> old(s.t.root.sub)[fkey] && s.t.compare(item, fkey) == 0 && sameDom(s.t) && s.t.size == old(s.t.size)
+//@   ensures !fnd ==> noEquiv(s.t, item) && s.t.size == old(s.t.size) + 1 && (forall kk T {s.t.root.sub[kk]} :: s.t.root.sub[kk] <==> (old(s.t.root.sub)[kk] || kk == item))
+
+//@ func Set.Remove
+//@   props C01
+//@   requires mOK(s.t)
+//@   modifies s.t.size, s.t.gen, s.t.root, s.t.nodes, s.t.dead, all(s.t.root.n), all(s.t.root.keys), all(s.t.root.values), all(s.t.root.children), all(s.t.root.parent), all(s.t.root.pidx), all(s.t.root.owner), all(s.t.root.height), s.t.val, s.t.locN, s.t.locI, all(s.t.root.sub)
+//@   ghostinit fnd := false
+//@   ghostinit fkey := item
+//@   after call Delete[0]: ghost fnd := callghost_fnd
+//@   after call Delete[0]: ghost fkey := callghost_fkey
+//@   ensures mOK(s.t)
+//@   ensures fnd ==> delFound(s.t, item, fkey)
+//@   ensures !fnd ==> delNone(s.t, item)
+
+//@ func NewSetCmp
+//@   props C01
+//@   requires compare != nil
+//@   requires forall a T {compare(a, a)} :: compare(a, a) == 0
+//@   requires forall a T, b T {compare(a, b)} :: (compare(a, b) < 0 <==> compare(b, a) > 0) && (compare(a, b) == 0 <==> compare(b, a) == 0)
+//@   requires forall a T, b T, c T {compare(a, b), compare(b, c)} :: (compare(a, b) <= 0 && compare(b, c) <= 0 ==> compare(a, c) <= 0) && (compare(a, b) < 0 && compare(b, c) <= 0 ==> compare(a, c) < 0) && (compare(a, b) <= 0 && compare(b, c) < 0 ==> compare(a, c) < 0)
+//@   ensures fresh(result.t) && mOK(result.t) && result.t.size == 0 && (forall kk T {result.t.root.sub[kk]} :: !result.t.root.sub[kk])
+
+//@ func NewSet
+//@   props C01
+//@   requires less != nil
+//@   requires (forall a T {less(a, a)} :: !less(a, a)) && (forall a T, b T, c T {less(a, b), less(b, c)} :: less(a, b) && less(b, c) ==> less(a, c))
+//@   requires forall a T, b T, c T {less(a, b), less(b, c)} {less(b, a), less(c, b)} :: !less(a, b) && !less(b, a) && !less(b, c) && !less(c, b) ==> !less(a, c) && !less(c, a)
+//@   ensures fresh(result.t) && mOK(result.t) && result.t.size == 0 && (forall kk T {result.t.root.sub[kk]} :: !result.t.root.sub[kk])
